@@ -676,7 +676,9 @@ func TestVerifService(t *testing.T) {
 		return
 	}
 	pairs := ctx.Param("pairs", 0) == 1
-	extLists := [][]string{nil, {"x1"}, {"x1", "x2"}, {"x2", "x1"}, {"x1", "x2", "x3"}, {"x3", "x1", "x2"}, {"x2", "x3", "x1"}}
+	// (the last two list an extension twice: service::extensions is a plain list and nothing rejects a repeated id - the
+	// extension is still one component: started once, stopped once, told every status event once)
+	extLists := [][]string{nil, {"x1"}, {"x1", "x2"}, {"x2", "x1"}, {"x1", "x2", "x3"}, {"x3", "x1", "x2"}, {"x2", "x3", "x1"}, {"x1", "x1"}, {"x1", "x2", "x1"}}
 	var n int64
 	leaves := map[string]int64{}
 	defer func() {
@@ -690,7 +692,17 @@ func TestVerifService(t *testing.T) {
 			if ti != 0 && xi != 1 {
 				continue
 			}
-			for _, deps := range sDAGs(xs) {
+			var uniq []string
+			for _, x := range xs {
+				dup := false
+				for _, y := range uniq {
+					dup = dup || x == y
+				}
+				if !dup {
+					uniq = append(uniq, x)
+				}
+			}
+			for _, deps := range sDAGs(uniq) {
 				// discover the component keys of this configuration
 				base := sCase{Topo: ti, Exts: xs, Deps: deps}
 				sCh = &sChooser{}
